@@ -17,23 +17,33 @@
      recv (thread)        try_recv (CFirst); RStore wait_co.store(thread blocker); try_recv (CReg);
                           RClear wait_co.clear() | RPark thread::park(); try_recv (CFin)
      recv (coroutine)     try_recv (CFirst); yield_with: KStore wait_co.store(co); KEmpty queue.is_empty();
-                          KChans channels.load (only if fixed); KTake wait_co.take() + run | RSusp suspended;
-                          resumed (by KTake or by the `Worker` action once scheduled): try_recv (CFin)
+                          KChans channels.load (only if fixed); KTake wait_co.take() -> KRun run_coroutine | RSusp suspended;
+                          resumed (KRun, or by the `Worker` action once scheduled): try_recv (CFin)
      Receiver::recv       loop over recv while it answers Empty
      Receiver::drop       RPd0 port_dropped.store(true); RPd1 queue.pop() until None
 
    The resumed coroutine first waits (Park::drop spins on wait_kernel) until its kernel half has
    finished, so the kernel half and the continuation are sequential: `Worker` resumes only from RSusp.
-   Spurious returns of thread::park are not modelled (they only add Empty rounds of the recv loop).
+   Environment actions on the receiver:
+     Spur   std::thread::park() returns although nobody unparked this thread (the documentation allows it; an
+            unpark meant for something else on that thread looks the same): RPark -> try_recv (CFin) WITHOUT
+            consuming the token; the blocker stays in wait_co (a later take finds it: a stale unpark) or is
+            replaced by the next round's store.
+     RCan   a cancel request is found by the coroutine receiver at one of its cancellation points - all inside
+            yield_with: before it enters the kernel (KStore: `cancel.is_canceled()`, nothing registered), or in
+            yield_back when it is resumed (by the worker after a sender scheduled it, or by its own kernel half:
+            KRun): the call is left by the Cancel panic (RCancel), nothing has been popped.  spsc's Park does
+            not register the coroutine with its cancel data, so cancel() itself never resumes it (see the
+            finding in props/C07.json): the model has no transition that resumes a suspended receiver on cancel.
    Payloads are 0, 1, 2, ... in send order.  Ghost: sent / rcvd / drpd, rdead / sdead as in ChanMpscModel. *)
 From Coq Require Import List Arith Bool Lia.
 Import ListNotations.
 
 Inductive wk := WT | WC.
-Inductive rpc := RIdle | RPop1 | RChk | RPop2 | RStore | RClear | RPark | KStore | KEmpty | KChans | KTake | RSusp | RPd0 | RPd1.
+Inductive rpc := RIdle | RPop1 | RChk | RPop2 | RStore | RClear | RPark | KStore | KEmpty | KChans | KTake | KRun | RSusp | RPd0 | RPd1.
 Inductive tctx := CTry | CFirst | CReg | CFin.
 Inductive api := ATry | ARecv | ADrop.
-Inductive res := RNone | ROk (v : nat) | REmpty | RDisc.
+Inductive res := RNone | ROk (v : nat) | REmpty | RDisc | RCancel.
 Inductive spc := SIdle | SChk | SPush | STake | SUnpark | SDrop.
 
 Record rcvr := { rp : rpc; rc : tctx; rapi : api; rco : bool; rres : res; rdata : res; ralive : bool; rdead : bool }.
@@ -68,7 +78,7 @@ Definition s_pushed (y : sndr) := {| sp := STake; sw := sw y; salive := salive y
 Definition s_took (y : sndr) w := {| sp := SUnpark; sw := w; salive := salive y; sres := sres y; sdead := sdead y; sn := sn y |}.
 Definition s_dead (y : sndr) := {| sp := STake; sw := sw y; salive := false; sres := sres y; sdead := sdead y; sn := sn y |}.
 
-Inductive action := TryRecv | Recv (co : bool) | DropPort | RStep | Worker | Send | DropChan | SStep | Free.
+Inductive action := TryRecv | Recv (co : bool) | DropPort | RStep | Worker | Spur | RCan | Send | DropChan | SStep | Free.
 
 Definition is_idle (x : rcvr) : bool := match rp x with RIdle => ralive x | _ => false end.
 Definition s_ready (y : sndr) : bool := match sp y with SIdle => salive y | _ => false end.
@@ -93,6 +103,16 @@ Definition step (s : st) (ac : action) : option st :=
       | RSusp => if runq s
                  then Some (mk (q s) (slot s) (chans s) (pdrop s) (ttok s) false (r_set x RPop1 CFin) y (sent s) (rcvd s) (drpd s) (freed s))
                  else None
+      | _ => None end
+  | Spur => match rp x with
+      | RPark => Some (mk (q s) (slot s) (chans s) (pdrop s) (ttok s) (runq s) (r_set x RPop1 CFin) y (sent s) (rcvd s) (drpd s) (freed s))
+      | _ => None end
+  | RCan => match rp x with
+      | KStore => Some (mk (q s) (slot s) (chans s) (pdrop s) (ttok s) (runq s) (r_ret x RCancel) y (sent s) (rcvd s) (drpd s) (freed s))
+      | RSusp => if runq s
+                 then Some (mk (q s) (slot s) (chans s) (pdrop s) (ttok s) false (r_ret x RCancel) y (sent s) (rcvd s) (drpd s) (freed s))
+                 else None
+      | KRun => Some (mk (q s) (slot s) (chans s) (pdrop s) (ttok s) (runq s) (r_ret x RCancel) y (sent s) (rcvd s) (drpd s) (freed s))
       | _ => None end
   | RStep =>
       match rp x with
@@ -122,10 +142,11 @@ Definition step (s : st) (ac : action) : option st :=
           then Some (mk (q s) (slot s) (chans s) (pdrop s) (ttok s) (runq s) (r_set x KTake (rc x)) y (sent s) (rcvd s) (drpd s) (freed s))
           else Some (mk (q s) (slot s) (chans s) (pdrop s) (ttok s) (runq s) (r_set x RSusp (rc x)) y (sent s) (rcvd s) (drpd s) (freed s))
       | KTake => match slot s with
-          | Some WC => Some (mk (q s) None (chans s) (pdrop s) (ttok s) (runq s) (r_set x RPop1 CFin) y (sent s) (rcvd s) (drpd s) (freed s))
+          | Some WC => Some (mk (q s) None (chans s) (pdrop s) (ttok s) (runq s) (r_set x KRun (rc x)) y (sent s) (rcvd s) (drpd s) (freed s))
           | Some WT => None
           | None => Some (mk (q s) (slot s) (chans s) (pdrop s) (ttok s) (runq s) (r_set x RSusp (rc x)) y (sent s) (rcvd s) (drpd s) (freed s))
           end
+      | KRun => Some (mk (q s) (slot s) (chans s) (pdrop s) (ttok s) (runq s) (r_set x RPop1 CFin) y (sent s) (rcvd s) (drpd s) (freed s))
       | RPd0 => Some (mk (q s) (slot s) (chans s) true (ttok s) (runq s) (r_set x RPd1 (rc x)) y (sent s) (rcvd s) (drpd s) (freed s))
       | RPd1 => match q s with
           | v :: q' => Some (mk q' (slot s) (chans s) (pdrop s) (ttok s) (runq s) x y (sent s) (rcvd s) (drpd s ++ [v]) (freed s))
